@@ -170,7 +170,29 @@ void run_case(Ctx& c) {
             case 10: a.chunk_id[5] ^= 0x40; dname = "manifest-for-other-chunk"; break;
             case 11: m.expires_at = WP(std::chrono::duration_cast<WP::duration>(std::chrono::floor<seconds>((wall() - seconds(5)).time_since_epoch()))); dname = "expired-manifest"; break;
             case 12: m.threshold = static_cast<std::uint8_t>(m.shards.size() + 1); dname = "threshold-gt-shards"; break;
-            case 13: a.assigned_shards = {250}; a.endpoint.clear(); dname = "assigned-shard-not-in-manifest"; break;
+            case 13: {
+                // "include every assigned shard": indices outside 1..total_shares, and an index inside that range whose
+                // shard the carried manifest does not contain (the manifest still meets its threshold)
+                a.endpoint.clear();
+                dname = "assigned-shard-not-in-manifest";
+                switch ((r.a(5) >> 2) % 5) {
+                    case 0: a.assigned_shards = {250}; break;
+                    case 1: a.assigned_shards = {0}; break;
+                    case 2: a.assigned_shards = {static_cast<std::uint8_t>(m.total_shares + 1)}; break;
+                    default: {
+                        if (m.shards.size() > m.threshold) {
+                            std::size_t drop = r.a(2) % m.shards.size();
+                            std::uint8_t missing = m.shards[drop].index;
+                            m.shards.erase(m.shards.begin() + static_cast<std::ptrdiff_t>(drop));
+                            a.assigned_shards = {missing};
+                            if ((r.a(5) >> 2) % 5 == 4) a.assigned_shards.insert(a.assigned_shards.begin(), m.shards.front().index);
+                            c.label("assigned_shard_in_range_but_not_carried");
+                        } else a.assigned_shards = {250};
+                        break;
+                    }
+                }
+                break;
+            }
             case 14: dname = D > 0 ? "invalid-pow" : "valid"; break;
             case 15: dname = D > 0 ? "v2-with-pow-required" : "valid"; break;
             default: break;
